@@ -270,13 +270,34 @@ Section Build.
   Variable canon : str -> option str.
   Variable glob_ok : str -> bool.
 
-  (* validate(cfg): no CR / LF, and route.NewTable accepts cfg as a single command *)
+  (* the two checks validate has made since d16ce3d: no CR / LF, and route.NewTable accepts the
+     command on its own *)
   Definition validate (cmd : str) : bool :=
     negb (existsb (fun c => (c =? 13) || (c =? 10)) cmd)
     && is_ok (new_table pweight canon glob_ok cmd).
 
+  (* validate(cmd, svc, src, dst, tags, opts) since /repo 9891ca3: in the code's order -- no CR / LF;
+     no double quote in the joined tags or the joined options; route.Parse(cmd) yields exactly one
+     definition whose Service, Src, Dst are the registered ones; route.NewTable accepts cmd *)
+  Definition reads_back (cmd svc src dst : str) : bool :=
+    match parse pweight cmd with
+    | Ok [d] => beq (d_svc d) svc && beq (d_src d) src && beq (d_dst d) dst
+    | _ => false
+    end.
+  Definition validate_cmd (cmd svc src dst tags opts : str) : bool :=
+    negb (existsb (fun c => (c =? 13) || (c =? 10)) cmd)
+    && negb (existsb (N.eqb 34) tags) && negb (existsb (N.eqb 34) opts)
+    && reads_back cmd svc src dst
+    && is_ok (new_table pweight canon glob_ok cmd).
+  Definition validate_intent (i : intent) : bool :=
+    validate_cmd (render_intent i) (i_svc i) (i_route i) (i_dst i) (join (i_tags i) [44]) (join (i_opts i) sp).
+
   (* routecmd.build: a rejected command is skipped, the others are kept *)
   Definition build (env : env_t) (prefix : str) (g : reg) : list str :=
+    map render_intent (filter validate_intent (intents env prefix g)).
+
+  (* build between d16ce3d and 9891ca3: accepted by the table, not checked to read back *)
+  Definition build_d16ce3d (env : env_t) (prefix : str) (g : reg) : list str :=
     filter validate (map render_intent (intents env prefix g)).
 End Build.
 
@@ -342,17 +363,33 @@ Section Expressible.
     && tags_ok (i_tags i) && opts_ok (i_opts i).
 
   (* the registration is skipped by build: what the property allows for an inexpressible one *)
-  Definition dropped (i : intent) : bool := negb (validate pweight canon glob_ok (render_intent i)).
-
-  (* finding region 2 (narrowed by d16ce3d): the line is accepted although the registration is
-     not expressible -- a tag containing a comma, a sole empty tag, a service name with a blank
-     at either end: the table then holds something else than was registered *)
-  Definition F_C14_altering (i : intent) : bool :=
-    validate pweight canon glob_ok (render_intent i) && negb (intent_expressible i).
-
+  Definition dropped (i : intent) : bool := negb (validate_intent pweight canon glob_ok i).
   Definition expressible (env : env_t) (prefix : str) (g : reg) : bool :=
     forallb intent_expressible (intents env prefix g).
 End Expressible.
+
+(* finding region 2 (what is left of F-C14-2 after d16ce3d and 9891ca3), SYNTACTIC on the input: a
+   plain tag contains a comma (read back as several tags), or the only plain tag is the empty
+   string (read back as no tag).  Proofs.RouteCmd.validated_characterised: a validated command of a
+   well-formed intent is expressible, or in this region, or has a vertical tab in a word (which the
+   grammar's \S+ takes and strings.Fields would not: harmless, outside [expressible] only because
+   that is stated with Go's white space). *)
+Definition comma_in_tag (i : intent) : bool := existsb (fun t => existsb (N.eqb 44) t) (i_tags i).
+Definition sole_empty_tag (i : intent) : bool := match i_tags i with [[]] => true | _ => false end.
+Definition F_C14_altering (i : intent) : bool := comma_in_tag i || sole_empty_tag i.
+Definition vtab_in_word (i : intent) : bool := existsb (N.eqb 11) (i_svc i ++ i_route i ++ i_dst i).
+
+(* what routecmd.build guarantees about the intents it makes: the weight literal and the options
+   are strings.Fields tokens, the plain tags are trimmed *)
+Definition intent_wf (i : intent) : bool :=
+  space_free (i_weight i) && forallb word_ok (i_opts i) && forallb (fun t => beq (trim_space t) t) (i_tags i).
+
+(* region of the code between d16ce3d and 9891ca3 (accepted by the table but never read back): the
+   command was emitted although the registration is not expressible -- a service name with blanks
+   whose extra words complete the grammar, a quote in a tag that starts an opts clause, ... *)
+Definition F_C14_unread_d16ce3d (pweight : str -> outcome wt) (canon : str -> option str) (glob_ok : str -> bool)
+           (i : intent) : bool :=
+  validate pweight canon glob_ok (render_intent i) && negb (intent_expressible pweight canon glob_ok i).
 
 (* the regions of the code before d16ce3d (strconv.Quote, no validation), for the refutations *)
 Section ExpressibleUnrepaired.
